@@ -549,19 +549,26 @@ class C10(Property):
     def impl(self, case):
         try:
             from boltons import listutils, queueutils  # noqa: F401
-            saved = listutils.BarrelList._size_factor
+            # `_size_factor` is a private tuning knob: when it exists it is lowered so that small histories
+            # already split the backend; when a refactoring renamed / removed it the case simply runs at the
+            # shipped sub-list sizes (no return value may depend on it: sorted_queue_independent_of_size_limit)
+            barrel = getattr(listutils, 'BarrelList', None)
+            has_sf = barrel is not None and hasattr(barrel, '_size_factor')
+            saved = barrel._size_factor if has_sf else None
         except Exception as e:   # a broken module is an observation, not a crash of the check
             x = 'X' + exc_name(e)
             return {'out': [x], 'maxlists': 1} if case['k'] in 'BH' else {'S': [x], 'H': [x], 'lists_at_end': 1}
         if case['k'] == 'H':
             return self._impl_h(case)
-        listutils.BarrelList._size_factor = case['sf']
+        if has_sf:
+            barrel._size_factor = case['sf']
         try:
             if case['k'] == 'B':
                 return self._impl_b(case)
             return self._impl_q(case)
         finally:
-            listutils.BarrelList._size_factor = saved
+            if has_sf:
+                barrel._size_factor = saved
 
     @staticmethod
     def _show(lst):
@@ -691,6 +698,10 @@ class C10(Property):
             raise InfraError('unknown Q op %r' % (op,))
         except (CaseTimeout, InfraError):
             raise
+        except IndexError:
+            return 'IndexError'     # "raises IndexError" includes a subclass (e.g. a dedicated QueueEmpty(IndexError))
+        except KeyError:
+            return 'KeyError'
         except Exception as e:
             return exc_name(e)
 
